@@ -1,7 +1,7 @@
 """C12 — the signing check (DESIGN §4 C12)."""
 import ast
 
-from .common import ctx, returns, calls_in_ctx, site, reach_from_succ
+from .common import ctx, returns, calls_in_ctx, site, reach_from_succ, bulk_appends
 from .lvs import match_rules, CK, CP, last_component_guarded
 from ..flow import callee_attr
 from ..loader import AnalysisError, norm
@@ -89,9 +89,9 @@ def run(R):
     outer = [n for n in fx.cfg.nodes if n.kind == 'for' and ast.unparse(n.ast.iter) == 'self.node_pool']
     if len(outer) != 1 or any(isinstance(x, (ast.Break, ast.Return)) for x in ast.walk(outer[0].ast)):
         probs.append(('not every node has its signing references resolved', fx.f.node))
-    ext = [c for (n, c) in calls_in_ctx(fx, attr='extend')]
-    if len(ext) != 1 or ast.unparse(ext[0].args[0]) != 'self.rule_node_ids[rid]':
-        probs.append(('a signer rule is not mapped to all of its nodes', ext[0] if ext else fx.f.node))
+    ext = bulk_appends(fx)
+    if len(ext) != 1 or ast.unparse(ext[0][2]) != 'self.rule_node_ids[rid]':
+        probs.append(('a signer rule is not mapped to all of its nodes', ext[0][0].ast if ext else fx.f.node))
     raises = [n for n in fx.cfg.nodes if n.kind == 'raise']
     tests = [t for t in fx.cfg.nodes if t.kind == 'test' and ast.unparse(t.ast) in ('rid not in self.rule_node_ids', 'rid in self.rule_node_ids')]
     if not raises or not tests or any(P.exc_name(fx.f.mod, r.ast.exc) != CP + '.SemanticError' for r in raises):
@@ -109,8 +109,8 @@ def run(R):
     rec = [n for n in gn.cfg.nodes if n.kind == 'stmt' and isinstance(n.ast, ast.Assign) and ast.unparse(n.ast.targets[0]) == 'self.rule_node_ids[rc.id]'] + \
           [n for (n, c) in calls_in_ctx(gn, attr='append') if ast.unparse(c.func.value) == 'self.rule_node_ids[rc.id]']
     endt = [t for t in gn.cfg.nodes if t.kind == 'test' and ast.unparse(t.ast) in ('depth == len(rc.name)', 'len(rc.name) == depth')]
-    sc = [c for (n, c) in calls_in_ctx(gn, attr='extend') if ast.unparse(c.func.value) == 'node.sign_cons' and ast.unparse(c.args[0]) == 'rc.sign_cons']
-    scn = [n for (n, c) in calls_in_ctx(gn, attr='extend') if ast.unparse(c.func.value) == 'node.sign_cons' and ast.unparse(c.args[0]) == 'rc.sign_cons']
+    scn = [n for (n, rv, it) in bulk_appends(gn) if ast.unparse(rv) == 'node.sign_cons' and ast.unparse(it) == 'rc.sign_cons']
+    sc = scn
     unconditional = False
     if len(endt) == 1 and scn:
         lp = [n for n in gn.cfg.nodes if n.kind == 'for' and any(x is endt[0].ast for x in ast.walk(n.ast))]
